@@ -163,6 +163,9 @@ class Live(JupyterMixin, RenderHook):
             try:
                 if self.auto_refresh and refresh_thread is not None:
                     refresh_thread.stop()
+                # a partial line still waiting in the redirected streams is printed while the display is live
+                # (above it), not by the stream's destructor after the final frame
+                self._flush_redirected_io()
                 # allow it to fully render on the last even if overflow
                 vertical_overflow = self.vertical_overflow
                 self.vertical_overflow = "visible"
@@ -256,6 +259,13 @@ class Live(JupyterMixin, RenderHook):
         ):  # if it is finished allow files or dumb-terminals to see final result
             with self.console:
                 self.console.print(Control(""))
+
+    def _flush_redirected_io(self) -> None:
+        """Print what the redirected stdout / stderr still hold."""
+        if self._restore_stdout and isinstance(sys.stdout, FileProxy):
+            sys.stdout.flush()
+        if self._restore_stderr and isinstance(sys.stderr, FileProxy):
+            sys.stderr.flush()
 
     def _disable_redirect_io(self):
         """Disable redirecting of stdout / stderr."""
